@@ -329,6 +329,13 @@ pub fn catch<T>(f: impl FnOnce() -> T) -> Result<T, String> {
 /// Marker payload prefix used by the harness's own step budget (a non-terminating SUT loop).
 pub const BUDGET_PANIC: &str = "VERIF-STEP-BUDGET";
 
+/// Swarm: a small share of the runs is an order of magnitude longer than the rest (hundreds of dates,
+/// hundreds to a thousand operations), so that thresholds short runs never reach are crossed too.
+pub fn long_run(seed: u64, tier: Tier) -> bool {
+    let mut r = crate::rng::Rng::new(seed).fork("long-run");
+    r.one_in(if tier == Tier::Thorough { 10 } else { 100 })
+}
+
 /// Relative closeness with an absolute floor.
 pub fn close(a: f64, b: f64, rel: f64) -> bool {
     if a == b {
